@@ -8,7 +8,14 @@
    c : constraints.bound(); B = 1/eps; Qw : weights_ over the class; lam : lambda_hat as recorded;
    lam' : the multiplier _eval uses (project_lambda lam); err / viol / L / L_high / L_low_code /
    gap_code follow _Lagrangian._eval, eval_gap and _GapResult.gap statement by statement;
-   L_low_true / gap_true are the specification (true minimum over the class, true duality gap). *)
+   L_low_true / gap_true are the specification (true minimum over the class, true duality gap).
+
+   Extension (second block of the file): Gen_egconst also carries the tail of _eval, the body of eval_gap,
+   and from fit the choice of nu, the EG/LP choice, the break rule and best_iter_ / best_gap_ / weights_ as
+   Gallina definitions regenerated from the source; C08_eval_src_is_model, C08_eval_gap_src_is_model and
+   C08_fit_src_is_model state that they are the model's definitions.  FL.SaddleFit models what solve_linprog
+   asks of scipy (lp_feasible / lp_objective / lp_optimal; the solver itself is trusted) and the object fit
+   hands out (returned). *)
 From Coq Require Import QArith ZArith List Bool.
 From FL Require Import Num Saddle Saddle_proofs SaddleFit SaddleFit_proofs.
 From FLGen Require Gen_egconst.
@@ -315,4 +322,21 @@ Example C08_example :
   compat H lam lam' = true /\ feasible H c Qs = true /\ lam' = [1; 0] /\
   Qred (gap_code H c B Gen_egconst.precision (1#100) Gen_egconst.muls Qw lam lam') = 27#20 /\
   Qred (gap_true H c B Qw lam') = 27#20.
+Proof. vm_compute. repeat split. Qed.
+
+(* non-vacuity of the extension: three recorded iterates whose smallest gap is NOT the last one -- fit hands out
+   iteration 1 with its own gap; the EG/LP choice takes the LP pair whole; nu = 0 is kept; the mixed weights of
+   C08_example with z = 3/20 satisfy what solve_linprog asks (and z = 1/10 does not) *)
+Example C08_example_fit :
+  let H := [mkHyp (1#4) [1#2; -(1#2)]; mkHyp (1#2) [0; 0]; mkHyp (1#2) [-(1#4); 1#4]; mkHyp (3#4) [1#8; -(1#8)]] in
+  let c := [1#10; 1#10] in
+  let its := [([1; 0; 0; 0], 3#10); ([1#2; 1#2; 0; 0], 1#10); ([0; 1; 0; 0], 2#10)] in
+  let r := Gen_egconst.returned_src [] (map snd its) (map fst its) in
+  r = (1%nat, 1#10, [1#2; 1#2; 0; 0]) /\
+  Gen_egconst.keep_src [1; 0] (3#10) (Some ([0; 1], 1#10)) = ([0; 1], 1#10) /\
+  Gen_egconst.keep_src [1; 0] (3#10) None = ([1; 0], 3#10) /\
+  Gen_egconst.nu_src (Some 0) (1#100) = 0 /\
+  lp_rows H c (ret_weights r) = [3#20; -(7#20)] /\
+  lp_feasible H c (ret_weights r) (3#20) = true /\ lp_feasible H c (ret_weights r) (1#10) = false /\
+  Qred (lp_objective H 10 (ret_weights r) (3#20)) = 15#8 /\ Qred (L_high H c 10 (ret_weights r)) = 15#8.
 Proof. vm_compute. repeat split. Qed.
